@@ -290,15 +290,21 @@ fn any_updater() -> ShmUpdater<GhostWriter> {
     u
 }
 
-fn expected_record(u: &ShmUpdater<GhostWriter>, bound: i64, as_of: libc::timespec, st: ClockStatus) -> ClockErrorBound {
-    ClockErrorBound::new(
-        as_of,
-        libc::timespec { tv_sec: as_of.tv_sec + 1000, tv_nsec: 0 },
-        bound,
-        u.max_drift_ppb,
-        u.reserved1,
-        st,
-    )
+/// Field values a published record must have (independent of ClockErrorBound's own constructor and
+/// `==`: the record's private fields are read through the cfg(kani)-only accessor woven into
+/// clock-bound-shm).
+type Fields = (i64, i64, i64, i64, i64, u32, u32, i32);
+
+fn expected_fields(drift: u32, reserved1: u32, bound: i64, as_of: libc::timespec, st: ClockStatus) -> Fields {
+    (as_of.tv_sec, as_of.tv_nsec, as_of.tv_sec + 1000, 0, bound, drift, reserved1, st as i32)
+}
+
+fn expected_record(u: &ShmUpdater<GhostWriter>, bound: i64, as_of: libc::timespec, st: ClockStatus) -> Fields {
+    expected_fields(u.max_drift_ppb, u.reserved1, bound, as_of, st)
+}
+
+fn rec(c: &ClockErrorBound) -> Fields {
+    clock_bound_shm::verif_pub::fields(c)
 }
 
 #[kani::proof]
@@ -357,7 +363,7 @@ fn c08_update_step() {
     kani::assert(u.max_drift_ppb == drift0 && u.reserved1 == res0, "C08.update.config_untouched");
     kani::assert(u.shm_clock_state.value() == to_clock_status(s), "C08.update.fsm_follows_report");
     let exp = expected_record(&u, u.bound_nsec, u.as_of, to_clock_status(s));
-    kani::assert(u.writer.last == exp, "C08.update.record_fields");
+    kani::assert(rec(&u.writer.last) == exp, "C08.update.record_fields");
     kani::cover!(s == ChronyClockStatus::Synchronized, "C08.cover.update_sync");
     kani::cover!(s == ChronyClockStatus::FreeRunning, "C08.cover.update_free");
 }
@@ -378,7 +384,7 @@ fn c08_missing_step() {
     let st = if grace { ClockStatus::FreeRunning } else { ClockStatus::Unknown };
     kani::assert(u.shm_clock_state.value() == st, "C08.missing.fsm_grace_free_else_unknown");
     let exp = expected_record(&u, b0, a0, st);
-    kani::assert(u.writer.last == exp, "C08.missing.record_fields");
+    kani::assert(rec(&u.writer.last) == exp, "C08.missing.record_fields");
     kani::cover!(grace, "C08.cover.grace");
     kani::cover!(!grace, "C08.cover.no_grace");
 }
@@ -427,11 +433,8 @@ fn fresh(drift: u32) -> ShmUpdater<GhostWriter> {
 }
 
 /// the record a client must see while nothing has been measured: status Unknown
-fn untrusted_record(drift: u32) -> ClockErrorBound {
-    ClockErrorBound::new(
-        libc::timespec { tv_sec: 0, tv_nsec: 0 },
-        libc::timespec { tv_sec: 1000, tv_nsec: 0 },
-        0, drift, 0, ClockStatus::Unknown)
+fn untrusted_record(drift: u32) -> Fields {
+    (0, 0, 1000, 0, 0, drift, 0, ClockStatus::Unknown as i32)
 }
 
 #[kani::proof]
@@ -444,10 +447,10 @@ fn c09_fresh_then_nonsync() {
     let with_first: bool = kani::any();
     if with_first {
         apply_nonsync(&mut u, &o1);
-        kani::assert(u.writer.last == untrusted_record(drift), "C09.step.no_trust_before_first_sync.first_outcome");
+        kani::assert(rec(&u.writer.last) == untrusted_record(drift), "C09.step.no_trust_before_first_sync.first_outcome");
     }
     apply_nonsync(&mut u, &o2);
-    kani::assert(u.writer.last == untrusted_record(drift), "C09.step.no_trust_before_first_sync.next_outcome");
+    kani::assert(rec(&u.writer.last) == untrusted_record(drift), "C09.step.no_trust_before_first_sync.next_outcome");
     kani::assert(u.bound_nsec == 0 && u.as_of.tv_sec == 0 && u.as_of.tv_nsec == 0, "C09.step.placeholder_kept");
     kani::cover!(with_first && !o1.missing && o1.status == ChronyClockStatus::FreeRunning, "C09.cover.free_class_report_first");
     kani::cover!(o2.missing && o2.grace, "C09.cover.grace_outage");
@@ -468,12 +471,12 @@ fn c09_nonsync_absorbing() {
                  "C09.absorb.measurement_fields");
     kani::assert(a.max_drift_ppb == b.max_drift_ppb && a.reserved1 == b.reserved1, "C09.absorb.config_fields");
     kani::assert(a.shm_clock_state.value() == b.shm_clock_state.value(), "C09.absorb.fsm_state");
-    kani::assert(a.writer.last == b.writer.last, "C09.absorb.published_record");
+    kani::assert(rec(&a.writer.last) == rec(&b.writer.last), "C09.absorb.published_record");
     // one more outcome is published identically from both (no hidden state shows)
     let o3 = any_nonsync();
     apply_nonsync(&mut a, &o3);
     apply_nonsync(&mut b, &o3);
-    kani::assert(a.writer.last == b.writer.last, "C09.absorb.next_publication");
+    kani::assert(rec(&a.writer.last) == rec(&b.writer.last), "C09.absorb.next_publication");
     kani::cover!(true, "C09.cover.absorb_end");
 }
 
@@ -520,6 +523,72 @@ fn c07_nonneg() {
     kani::cover!(co < 0, "C07.cover.negative_offset");
 }
 
+
+// ---- C08 closure: every reachable post-sync state is (observably) "last sync, then last outcome" ----
+// `any_updater()` builds its pre-state as  fresh -> sync -> one arbitrary outcome.  That covers every
+// reachable state only if longer histories collapse onto that shape.  This harness checks the
+// collapse: after  sync(s) . o1 . o2  the updater is observably the same as after  sync(s') . o2
+// (s' = o1 if o1 was synchronised, else s): same fields, same FSM value, same published record, and
+// the SAME NEXT PUBLICATION for an arbitrary third outcome o3 -- so any bookkeeping that makes the
+// reaction to an outcome depend on older outcomes shows up here.
+struct AnyOutcome {
+    missing: bool,
+    grace: bool,
+    status: ChronyClockStatus,
+    bound: i64,
+    phc: i64,
+    as_of: libc::timespec,
+}
+
+fn any_outcome() -> AnyOutcome {
+    let bound: i64 = kani::any();
+    let phc: i64 = kani::any();
+    kani::assume(-(1i64 << 61) < bound && bound < (1i64 << 61) && -(1i64 << 61) < phc && phc < (1i64 << 61));
+    let as_of = libc::timespec { tv_sec: kani::any(), tv_nsec: kani::any() };
+    kani::assume(as_of.tv_sec < i64::MAX - 1000);
+    AnyOutcome { missing: kani::any(), grace: kani::any(), status: any_chrony_status(), bound, phc, as_of }
+}
+
+fn apply_outcome(u: &mut ShmUpdater<GhostWriter>, o: &AnyOutcome) {
+    if o.missing {
+        u.process_missing_clock_update(o.grace);
+    } else {
+        unsafe {
+            EXTRACT_BOUND = o.bound;
+            EXTRACT_STATUS = status_code(o.status);
+        }
+        u.process_clock_update(any_tracking(), o.phc, o.as_of);
+    }
+}
+
+#[kani::proof]
+#[kani::stub(extract_bound_from_tracking, stub_extract)]
+fn c08_history_collapses() {
+    let drift: u32 = kani::any();
+    let mut s = any_outcome();
+    s.missing = false;
+    s.status = ChronyClockStatus::Synchronized;
+    let o1 = any_outcome();
+    let o2 = any_outcome();
+    let o3 = any_outcome();
+    let mut a = fresh(drift);
+    apply_outcome(&mut a, &s);
+    apply_outcome(&mut a, &o1);
+    apply_outcome(&mut a, &o2);
+    let mut b = fresh(drift);
+    let o1_is_sync = !o1.missing && o1.status == ChronyClockStatus::Synchronized;
+    apply_outcome(&mut b, if o1_is_sync { &o1 } else { &s });
+    apply_outcome(&mut b, &o2);
+    kani::assert(a.bound_nsec == b.bound_nsec && a.as_of.tv_sec == b.as_of.tv_sec && a.as_of.tv_nsec == b.as_of.tv_nsec,
+                 "C08.collapse.measurement_fields");
+    kani::assert(a.shm_clock_state.value() == b.shm_clock_state.value(), "C08.collapse.fsm_state");
+    kani::assert(rec(&a.writer.last) == rec(&b.writer.last), "C08.collapse.published_record");
+    apply_outcome(&mut a, &o3);
+    apply_outcome(&mut b, &o3);
+    kani::assert(rec(&a.writer.last) == rec(&b.writer.last), "C08.collapse.next_publication_depends_only_on_last_sync_and_latest_outcomes");
+    kani::assert(a.writer.count == 4 && b.writer.count == 3, "C08.collapse.one_publication_per_outcome");
+    kani::cover!(o1.missing && !o2.missing && o2.status == ChronyClockStatus::Synchronized && o3.missing && o1.grace == o3.grace, "C08.cover.outage_sync_outage");
+}
 
 // =============================================================================================
 // C08 dispatch: process_messages maps every message to the documented handler
@@ -625,9 +694,8 @@ fn c08_dispatch() {
     process_messages(ctx, u);
 
     let (count, last) = unsafe { (DISPATCH_COUNT, DISPATCH_LAST) };
-    let rec = |bound: i64, at: libc::timespec, st: ClockStatus| {
-        ClockErrorBound::new(at, libc::timespec { tv_sec: at.tv_sec + 1000, tv_nsec: 0 }, bound, drift, 0, st)
-    };
+    let last = last.map(|c| rec(&c));
+    let rec = |bound: i64, at: libc::timespec, st: ClockStatus| expected_fields(drift, 0, bound, at, st);
     match kind {
         0 => {
             kani::assert(count == 1, "C08.dispatch.data_publishes_once");
